@@ -446,7 +446,7 @@ fn check(b: &Built, rep: &mut Report) {
             match serde_json::from_slice::<zlink_core::Call<M<'_>>>(fr) {
                 Ok(c) => {
                     let (seq, is_sub) = match c.method() {
-                        M::Echo { seq, .. } | M::Fail { seq, .. } => (*seq, false),
+                        M::Echo { seq, .. } | M::Fail { seq, .. } | M::Poison { seq, .. } => (*seq, false),
                         M::Sub { seq, .. } => (*seq, true),
                     };
                     if c.oneway() {
